@@ -296,3 +296,138 @@ def aug_to_assign(sources, modules=('core', 'parallel_utils')):
 def reformat(sources):
     """round trip through ast.unparse: drops comments, changes line numbers and layout"""
     return {m: ast.unparse(ast.parse(s)) for m, s in sources.items()}
+
+
+# ------------------------------------------------------------------ structural variants (whole package, mechanical)
+def _always_exits(stmts):
+    if not stmts:
+        return False
+    last = stmts[-1]
+    if isinstance(last, (ast.Return, ast.Raise, ast.Continue, ast.Break)):
+        return True
+    if isinstance(last, ast.If) and last.orelse:
+        return _always_exits(last.body) and _always_exits(last.orelse)
+    return False
+
+
+def _map_blocks(tree, fn):
+    """apply fn(list of statements) -> new list to every statement list of the tree, innermost first"""
+    for node in ast.walk(tree):
+        for field in ('body', 'orelse', 'finalbody'):
+            blk = getattr(node, field, None)
+            if isinstance(blk, list) and blk and isinstance(blk[0], ast.stmt):
+                setattr(node, field, fn(blk, node, field))
+        if isinstance(node, ast.Try):
+            for h in node.handlers:
+                h.body = fn(h.body, h, 'body')
+    return tree
+
+
+def _variant(sources, transform, modules=('core', 'parallel_utils', 'database')):
+    out = dict(sources)
+    for m in modules:
+        if m in sources:
+            tree = ast.parse(sources[m])
+            tree = transform(tree)
+            ast.fix_missing_locations(tree)
+            text = ast.unparse(tree)
+            compile(text, m, 'exec')
+            out[m] = text
+    return out
+
+
+def else_to_early_exit(sources):
+    """if c: A(always exits) else: B   ->   if c: A ; B"""
+    def f(blk, owner, field):
+        out = []
+        for st in blk:
+            if isinstance(st, ast.If) and st.orelse and _always_exits(st.body) and not (
+                    len(st.orelse) == 1 and isinstance(st.orelse[0], ast.If) and field == 'orelse'):
+                rest = st.orelse
+                st.orelse = []
+                out.append(st)
+                out.extend(rest)
+            else:
+                out.append(st)
+        return out
+    return _variant(sources, lambda t: _map_blocks(t, f))
+
+
+def early_exit_to_else(sources):
+    """if c: A(always exits) ; rest   ->   if c: A else: rest     (no else before, rest non-empty)"""
+    def f(blk, owner, field):
+        for i, st in enumerate(blk):
+            if isinstance(st, ast.If) and not st.orelse and _always_exits(st.body) and blk[i + 1:] \
+                    and not any(isinstance(x, (ast.FunctionDef, ast.ClassDef, ast.Import, ast.ImportFrom)) for x in blk[i + 1:]):
+                st.orelse = f(blk[i + 1:], owner, field)
+                return blk[:i + 1]
+        return blk
+    return _variant(sources, lambda t: _map_blocks(t, f))
+
+
+def name_call_results(sources):
+    """return f(...)  ->  result__ = f(...); return result__     (only where the function does not use that name)"""
+    def f(blk, owner, field):
+        out = []
+        for st in blk:
+            if isinstance(st, ast.Return) and isinstance(st.value, ast.Call):
+                tmp = ast.Name(id='result__', ctx=ast.Store())
+                out.append(ast.copy_location(ast.Assign(targets=[tmp], value=st.value), st))
+                out.append(ast.copy_location(ast.Return(value=ast.Name(id='result__', ctx=ast.Load())), st))
+            else:
+                out.append(st)
+        return out
+    return _variant(sources, lambda t: _map_blocks(t, f))
+
+
+def ifexp_to_statement(sources):
+    """x = a if c else b   ->   if c: x = a  else: x = b     (single Name / attribute target)"""
+    def f(blk, owner, field):
+        out = []
+        for st in blk:
+            if isinstance(st, ast.Assign) and len(st.targets) == 1 and isinstance(st.targets[0], (ast.Name, ast.Attribute)) \
+                    and isinstance(st.value, ast.IfExp):
+                import copy as _c
+                a = ast.Assign(targets=[_c.deepcopy(st.targets[0])], value=st.value.body)
+                b = ast.Assign(targets=[_c.deepcopy(st.targets[0])], value=st.value.orelse)
+                out.append(ast.copy_location(ast.If(test=st.value.test, body=[a], orelse=[b]), st))
+            else:
+                out.append(st)
+        return out
+    return _variant(sources, lambda t: _map_blocks(t, f))
+
+
+def comprehension_to_loop(sources):
+    """x = [e for t in it if c]   ->   x = [] ; for t in it: if c: x.append(e)      (Name target, one generator whose
+    target names do not occur elsewhere in the enclosing function, no walrus)"""
+    def transform(tree):
+        A.set_parents(tree)
+
+        def f(blk, owner, field):
+            out = []
+            for st in blk:
+                v = st.value if isinstance(st, ast.Assign) else None
+                if isinstance(st, ast.Assign) and len(st.targets) == 1 and isinstance(st.targets[0], ast.Name) \
+                        and isinstance(v, ast.ListComp) and len(v.generators) == 1 and not v.generators[0].is_async:
+                    g = v.generators[0]
+                    fn = A.enclosing_function(st)
+                    names = set(A.name_targets(g.target))
+                    scope = fn if fn is not None else tree
+                    elsewhere = {x.id for x in ast.walk(scope) if isinstance(x, ast.Name) and not any(x is y for y in ast.walk(v))}
+                    tgt = st.targets[0].id
+                    if fn is None or names & elsewhere or tgt in {x.id for x in ast.walk(v) if isinstance(x, ast.Name)} \
+                            or any(isinstance(x, ast.NamedExpr) for x in ast.walk(v)):
+                        out.append(st)
+                        continue
+                    app = ast.Expr(value=ast.Call(func=ast.Attribute(value=ast.Name(id=tgt, ctx=ast.Load()), attr='append', ctx=ast.Load()),
+                                                  args=[v.elt], keywords=[]))
+                    body = [app]
+                    for c in reversed(g.ifs):
+                        body = [ast.If(test=c, body=body, orelse=[])]
+                    out.append(ast.copy_location(ast.Assign(targets=[ast.Name(id=tgt, ctx=ast.Store())], value=ast.List(elts=[], ctx=ast.Load())), st))
+                    out.append(ast.copy_location(ast.For(target=g.target, iter=g.iter, body=body, orelse=[]), st))
+                else:
+                    out.append(st)
+            return out
+        return _map_blocks(tree, f)
+    return _variant(sources, transform)
